@@ -350,23 +350,62 @@ def reads_of(n, name: str) -> bool:
 
 
 def specialise(fnode: ast.AST, name: str, value: bool) -> ast.AST:
-    """copy of a function with `if <name>:` / `if not <name>:` statements resolved for a fixed boolean parameter
-    (removes the infeasible paths a path-insensitive CFG would otherwise see)"""
+    """copy of a function with tests on a fixed boolean parameter resolved: `if <name>:` / `if not <name>:` statements, conditional
+    expressions, and `<name> and X` / `<name> or X` inside tests (removes the infeasible paths a path-insensitive CFG would otherwise see).
+    Nested functions reading the parameter as a closure variable are specialised too."""
     import copy
+
+    def simp(t):
+        """the test with the parameter replaced by its value, constants folded through not / and / or"""
+        if isinstance(t, ast.Name) and t.id == name:
+            return ast.copy_location(ast.Constant(value), t)
+        if isinstance(t, ast.UnaryOp) and isinstance(t.op, ast.Not):
+            o = simp(t.operand)
+            if isinstance(o, ast.Constant) and isinstance(o.value, bool):
+                return ast.copy_location(ast.Constant(not o.value), t)
+            return ast.copy_location(ast.UnaryOp(ast.Not(), o), t) if o is not t.operand else t
+        if isinstance(t, ast.BoolOp):
+            is_and = isinstance(t.op, ast.And)
+            vals = []
+            for v in t.values:
+                v2 = simp(v)
+                if isinstance(v2, ast.Constant) and isinstance(v2.value, bool):
+                    if v2.value == is_and:
+                        continue            # neutral element
+                    if not vals:
+                        return ast.copy_location(ast.Constant(v2.value), t)     # absorbing element first: the rest is never evaluated
+                    vals.append(v2)
+                    break                   # the operands after an absorbing element are never evaluated
+                vals.append(v2)
+            if not vals:
+                return ast.copy_location(ast.Constant(is_and), t)
+            if len(vals) == 1:
+                return vals[0]
+            return ast.copy_location(ast.BoolOp(t.op, vals), t)
+        return t
 
     class T(ast.NodeTransformer):
         def visit_If(self, node):
             self.generic_visit(node)
-            t = node.test
-            known = None
-            if isinstance(t, ast.Name) and t.id == name:
-                known = value
-            elif isinstance(t, ast.UnaryOp) and isinstance(t.op, ast.Not) and isinstance(t.operand, ast.Name) and t.operand.id == name:
-                known = not value
-            if known is None:
-                return node
-            body = node.body if known else node.orelse
-            return body if body else ast.copy_location(ast.Pass(), node)
+            t = simp(node.test)
+            if isinstance(t, ast.Constant) and isinstance(t.value, bool):
+                body = node.body if t.value else node.orelse
+                return body if body else ast.copy_location(ast.Pass(), node)
+            node.test = t
+            return node
+
+        def visit_IfExp(self, node):
+            self.generic_visit(node)
+            t = simp(node.test)
+            if isinstance(t, ast.Constant) and isinstance(t.value, bool):
+                return node.body if t.value else node.orelse
+            node.test = t
+            return node
+
+        def visit_While(self, node):
+            self.generic_visit(node)
+            node.test = simp(node.test)
+            return node
 
     new = T().visit(copy.deepcopy(fnode))
     ast.fix_missing_locations(new)
